@@ -281,6 +281,7 @@ def lean_audit(prop, extra_modules=()):
     for x in [prop] + parts:
         names += theorem_names(os.path.join(pdir, x + ".lean"))
     res["theorems"] = names
+    res["modules"] = mods
     res["obligations"] = len(names)
     ok, out = lean_build(mods + list(extra_modules))
     res["log"] = out[-6000:]
@@ -429,14 +430,33 @@ def standard_setup(res, prop, generated, driver=True):
     audit = lean_audit(prop)
     if not audit["ok"]:
         proof_problems += audit["problems"]
+    elif res.tier == "thorough":
+        # independent re-check of the compiled property modules (one module per call)
+        bad = lean_recheck(audit.get("modules", []))
+        audit["leanchecker"] = "ok" if not bad else bad
+        proof_problems += bad
     return bdir, audit, proof_problems
+
+
+def lean_recheck(modules):
+    """`lake env leanchecker <module>` for each module; returns the list of problems"""
+    problems = []
+    for m in modules:
+        try:
+            r = sh(["lake", "env", "leanchecker", m], cwd=LEAN_DIR, timeout=1800)
+        except subprocess.TimeoutExpired:
+            problems.append("leanchecker %s: timeout" % m)
+            continue
+        if r.returncode != 0:
+            problems.append("leanchecker rejects %s: %s" % (m, (r.stdout + r.stderr).decode(errors="replace")[-400:]))
+    return problems
 
 
 def proof_coverage(audit, prop, extra_trusted=()):
     return dict(
         obligations=max(1, audit["obligations"]), discharged=audit["discharged"],
         checker_cmd="lake build AslModel.Props.%s && lake env lean Audit/%s.lean (#print axioms of every theorem)" % (prop, prop),
-        trusted_base=["Lean 4.33 kernel", "axioms used: " + ",".join(sorted({a for v in audit["axioms"].values() for a in v}) or ["none"])] + list(extra_trusted),
+        trusted_base=["Lean 4.33 kernel" + (" + leanchecker re-check of the property modules: %s" % audit["leanchecker"] if "leanchecker" in audit else ""), "axioms used: " + ",".join(sorted({a for v in audit["axioms"].values() for a in v}) or ["none"])] + list(extra_trusted),
         theorems=audit["theorems"])
 
 
